@@ -1,6 +1,6 @@
 """Compile rendered program models with the system compilers, and run the
 libabigail tools built from the working tree."""
-import os, subprocess, shutil, signal
+import os, re, subprocess, shutil, signal
 from . import build
 from .gen import model as M
 
@@ -38,6 +38,8 @@ def compile_model(model, cfg, d, out="lib.so", files=None, extra_cflags=(), node
     cc = CC[(cfg.get("cc", "gcc"), lang)]
     ext = ".cc" if lang == "cxx" else ".c"
     srcs = sorted(f for f in files if f.endswith(ext))
+    if model.get("tu_order_reversed"):
+        srcs = srcs[::-1]      # order of the objects on the link line = order of the compilation units in .debug_info
     kind = cfg.get("kind", "shared")
     cflags = ["-gdwarf-%d" % cfg.get("dwarf", 5), cfg.get("opt", "-O0"), "-w"]
     if kind in ("shared", "pie"):
@@ -50,6 +52,7 @@ def compile_model(model, cfg, d, out="lib.so", files=None, extra_cflags=(), node
     objs = []
     for k, s in enumerate(srcs):
         o = s[:-len(ext)] + ".o"
+        k = int(re.search(r"tu(\d+)", s).group(1)) if re.search(r"tu(\d+)", s) else k
         fl = [f for f in cflags if not (k in nodebug_tus and f.startswith("-g"))]
         if k in nodebug_tus:
             fl.append("-g0")
